@@ -1318,7 +1318,7 @@ OCTET_STRING_per_put_characters(asn_per_outp_t *po, const uint8_t *buf,
 			switch(bpc) {
 			case 1: value = *(const uint8_t *)buf; break;
 			case 2: value = (buf[0] << 8) | buf[1]; break;
-			case 4: value = (buf[0] << 24) | (buf[1] << 16)
+			case 4: value = ((uint32_t)buf[0] << 24) | (buf[1] << 16)
 					| (buf[2] << 8) | buf[3]; break;
 			default: return -1;
 			}
@@ -1350,7 +1350,7 @@ OCTET_STRING_per_put_characters(asn_per_outp_t *po, const uint8_t *buf,
             value = (buf[0] << 8) | buf[1];
             break;
         case 4:
-            value = (buf[0] << 24) | (buf[1] << 16) | (buf[2] << 8) | buf[3];
+            value = ((uint32_t)buf[0] << 24) | (buf[1] << 16) | (buf[2] << 8) | buf[3];
             break;
         default:
             return -1;
